@@ -60,6 +60,7 @@ Inductive failure :=
 | FailRead (p : path)            (* file missing / not a regular file / not UTF-8 *)
 | FailMismatch (p : path)        (* Content mismatch: stale plan *)
 | FailPanic (p : path)           (* slice out of range or not on a char boundary *)
+| FailConflict (p : path)        (* a planned destination is already occupied *)
 | FailIo (o : mop) (e : errno).  (* a system call failed (really or injected) *)
 
 Definition do_op (inj : inj_t) (o : mop) (s : st) : st + (failure * st) :=
@@ -188,9 +189,22 @@ Fixpoint rollback (inj : inj_t) (rev_performed : list (path * path)) (s : st) : 
 Record result := { r_fs : fs; r_ok : bool; r_fail : option failure; r_trace : list mop;
                    r_performed : list (path * path) }.
 
+(* the occupied-destination check at the top of apply_plan (case-sensitive file system: a
+   destination that exists is never "the same entry" as a different source path) *)
+Definition occupied (t : fs) (r : aren) : bool :=
+  match ar_new r with
+  | [] => false
+  | _ => negb (path_eqb (ar_new r) (ar_path r)) && exists_ t (ar_new r)
+  end.
+Definition first_conflict (t : fs) (rs : list aren) : option aren := find (occupied t) rs.
+
 (* apply_plan up to (not including) the backup / history tail *)
 Definition apply_core (inj : inj_t) (p : aplan) (t : fs) : result :=
   let s0 := {| s_fs := t; s_n := 0; s_trace := [] |} in
+  match first_conflict t (ap_renames p) with
+  | Some r => {| r_fs := t; r_ok := false; r_fail := Some (FailConflict (ar_new r)); r_trace := [];
+                 r_performed := [] |}
+  | None =>
   match content_stage inj (edits_by_file (ap_hunks p)) s0 with
   | inr (f, s) =>
       (* rollback(&mut state): nothing has been renamed yet *)
@@ -203,6 +217,7 @@ Definition apply_core (inj : inj_t) (p : aplan) (t : fs) : result :=
           let s3 := rollback inj (rev perf) s2 in
           {| r_fs := s_fs s3; r_ok := false; r_fail := Some f; r_trace := rev (s_trace s3); r_performed := perf |}
       end
+  end
   end.
 
 Definition no_fault : inj_t := fun _ => false.
